@@ -214,18 +214,22 @@ class LinearPaths:
       else:
         o = segment.get("or")
     if init:
-      merged.sequence = [s]
+      if gfapy.is_placeholder(segment.sequence):
+        merged.sequence = gfapy.Placeholder()
+      else:
+        merged.sequence = [s]
       if merged_name:
         merged.name = [merged_name]
       else:
         merged.name = [n]
-      merged.LN = segment.LN
+      merged.LN = segment.length
       if enable_tracking:
         merged.rn = rn
         merged.set("or",[o])
         merged.mp = mp
     else:
-      if gfapy.is_placeholder(segment.sequence):
+      if gfapy.is_placeholder(segment.sequence) or \
+          gfapy.is_placeholder(merged.sequence):
         merged.sequence = gfapy.Placeholder()
       else:
         merged.sequence.append(s)
@@ -241,8 +245,8 @@ class LinearPaths:
               merged.rn += rn
           if mp and merged.mp:
             merged.mp += [pos - cut + merged.LN for pos in mp]
-        if segment.LN:
-          merged.LN += (segment.LN - cut)
+        if segment.length is not None:
+          merged.LN += (segment.length - cut)
         else:
           merged.LN = None
       elif enable_tracking:
